@@ -190,14 +190,19 @@ RekeyR(S, x, new, okRes, registerNew) ==
                      !.mem[p] = regd(@), !.locks = Remap(@, p, old, new)], okRes)
   ELSE IF dst.ex /\ ~EmptyDir(dst)
   THEN \* destination exists: file and directory rolled back, in-memory value reloaded from the restored file
-       IF rec.spk = "garbage"
-       THEN \* DEVIATION D7: the roll-back read the restored file; when that had been damaged meanwhile the read failed and the
-            \* REJECTED value stayed in memory (a handle whose state point does not hash to its id).  Repaired: fall back to
-            \* the value the handles knew before the edit; if there is none, forget the value (loaded + validated on next access)
-            IF ~FixedD7 THEN Out([S EXCEPT !.h = SetGroup(@, x, LAMBDA g : [g EXCEPT !.spMem = Known(new)])], "JSONDecodeError")
-            ELSE IF j.spMem.known THEN Out([S EXCEPT !.h = SetGroup(@, x, LAMBDA g : [g EXCEPT !.spMem = j.spMem])], "DestinationExistsError")
+       \* DEVIATION D7: the roll-back trusted the restored file.  When that had been damaged meanwhile the read failed (the
+       \* REJECTED value stayed in memory) or delivered another state point - a handle whose state point does not hash to its
+       \* id.  Repaired: a restored file that is unreadable or not this job's state point is not used; fall back to the value
+       \* the handles knew before the edit; if there is none, forget the value (loaded + validated on the next access)
+       IF ~FixedD7
+       THEN IF rec.spk = "garbage"
+            THEN Out([S EXCEPT !.h = SetGroup(@, x, LAMBDA g : [g EXCEPT !.spMem = Known(new)])], "JSONDecodeError")
+            ELSE Out([S EXCEPT !.h = SetGroup(@, x, LAMBDA g : [g EXCEPT !.spMem = Known(rec.spv)])], "DestinationExistsError")
+       ELSE IF rec.spk = "ok" /\ rec.spv = old
+            THEN Out([S EXCEPT !.h = SetGroup(@, x, LAMBDA g : [g EXCEPT !.spMem = Known(rec.spv)])], "DestinationExistsError")
+            ELSE IF j.spMem.known
+            THEN Out([S EXCEPT !.h = SetGroup(@, x, LAMBDA g : [g EXCEPT !.spMem = j.spMem])], "DestinationExistsError")
             ELSE Out([S EXCEPT !.h = SetGroup(@, x, LAMBDA g : [g EXCEPT !.spInit = FALSE, !.spMem = NoSp])], "DestinationExistsError")
-       ELSE Out([S EXCEPT !.h = SetGroup(@, x, LAMBDA g : [g EXCEPT !.spMem = Known(rec.spv)])], "DestinationExistsError")
   ELSE \* the directory moves (an empty destination directory is taken over); the LAST member of the
        \* group re-initialises it, i.e. writes the new state point file, and registers the id
        Out([S EXCEPT !.ws[p] = PutF(DelF(@, old), new, Dir("ok", new, rec.doc, rec.files)),
